@@ -438,8 +438,9 @@ def run_case(case):
     if case.get('cold'):
         # after the flush (which renders an error page), so that the scheduled threads really start cold
         from ombott import error_render
-        saved_tpl = list(error_render._html_lns)
-        del error_render._html_lns[:]
+        if isinstance(getattr(error_render, '_html_lns', None), list):
+            saved_tpl = list(error_render._html_lns)
+            del error_render._html_lns[:]
     app = new_app(cfg)
     outs = [[Outcome() for _ in lst] for lst in lists]
     inflight = set()
